@@ -1234,6 +1234,52 @@ pub fn generate(op: &str, rng: &mut Rng, budget: u64, f: &mut dyn FnMut(Vec<Stri
                 if !f(vec![flist(&l)]) {
                     return;
                 }
+                // the same input in ascending ID order (what an ordered index scan hands over): a shortcut that trusts
+                // "already sorted" input shows only here
+                if it % 2 == 0 {
+                    l.sort_unstable();
+                    if !f(vec![flist(&l)]) {
+                        return;
+                    }
+                }
+            }
+            // cells spaced by the stride of ANOTHER level: `first + j * stride(t)` for a few j - what a sibling test that uses
+            // the wrong stride would take for a complete group (e.g. the first resolution-2 cell of consecutive quintants)
+            for _ in 0..(budget / 4).max(200) {
+                let r = 1 + rng.below(6) as i32;
+                let lim = s_limit(r);
+                let first = Cell {
+                    o: rng.below(12) as u8,
+                    seg: rng.below(5) as usize,
+                    s: if rng.below(2) == 0 { 0 } else { rng.below(lim) & !3 },
+                    r,
+                };
+                let x = enc(first);
+                let t = (r + rng.below(3) as i32 - 1).max(0);
+                let stride = if t < 2 { 1u64 << 58 } else { 1u64 << (marker_pos(t) + 1) };
+                let n = [4u64, 5, 12, 3][rng.below(4) as usize];
+                let mut cells: Vec<Cell> = vec![];
+                for j in 0..n {
+                    if let Some(y) = x.checked_add(j.wrapping_mul(stride)) {
+                        if let Some(c) = dec(y) {
+                            if c.r == r && canonical(y) {
+                                cells.push(c);
+                            }
+                        }
+                    }
+                }
+                cells.sort();
+                cells.dedup();
+                if cells.len() < 2 || !is_antichain(&cells) {
+                    continue;
+                }
+                let mut l: Vec<u64> = cells.iter().map(|c| enc(*c)).collect();
+                if rng.below(2) == 0 {
+                    shuffle(&mut l, rng);
+                }
+                if !f(vec![flist(&l)]) {
+                    return;
+                }
             }
         }
         "curve_roundtrip" | "pentagon_centre" => {
